@@ -11,6 +11,11 @@ NOTE = ("Trusted base: go/types + go/ssa (x/tools v0.29.0) as a faithful model o
 
 # id -> (built?, technique, level text, design_ref, reason-if-not-built)
 P = {
+ "C02": (True, "guard dominance on the visibility filter and on each transport's success return, value-flow of the phantom argument through helper call sites, who-may-write (Valid), constant-label table (go/ssa)",
+         "Decides for every input and history: connection matching can only see registrations whose own Valid flag is set, taken from the per-phantom map of the connection's original destination (through every helper, by value-flow of the phantom parameter from the socket's original destination); "
+         "each transport's success is dominated by its identity checks — min: the map element under the presented 32-byte tag with found==true; prefix: transport type == Prefix and registered prefix id == matched prefix on the typed path, keyed by the tag revealed with a station key; obfs4: the registration whose keys produced the matching mark; "
+         "Valid is set true only inside register (reached only from AddRegistration) and false only when tracking; identifier labels are constant, distinct and keyed by the shared secret. Cryptographic unforgeability and expiry (C08) are not decided.",
+         "4/C02"),
  "C03": (True, "connection-effect (who-may-touch) rule over all uses of the connection value, must-pass 'wait out the deadline' on every exit, interval evaluation of the deadline, guard dominance on transport thresholds (go/ssa)",
          "Decides for every input and pacing: before a positive match no code path in the handler or in any WrapConnection implementation (computed from the interface) can write to, close, re-deadline or hand away the client connection — its only uses are observers, SetDeadline, Read, drain into io.Discard and the offer to WrapConnection; the wrapped connection is only returned with a nil error or, for obfs4, handed to the handshake after the mark matched; "
          "every return after the deadline was set is preceded on all paths by a drain to the deadline, a sleep until it, a read error or Proxy; the deadline precedes the first read and is now+d with d in [5 s,10 s) by interval evaluation; obfs4 says not-transport only at 8192 bytes; the loop removes a transport only on ErrNotTransport. "
